@@ -23,6 +23,12 @@ if "--scratch" in sys.argv:
     ENV_EXTRA = {"VERIF_REPO": REPO, "VERIF_BUILD_ROOT": broot, "VERIF_OUT": os.path.join(base, "out"),
                  "VERIF_SCRATCH": os.path.join(base, "scratch")}
 names = sys.argv[1:] or sorted(os.path.basename(d) for d in glob.glob(os.path.join(VERIF, "seeded", "*")) if os.path.isdir(d))
+if ENV_EXTRA:
+    for n in names:
+        m = json.load(open(os.path.join(VERIF, "seeded", n, "meta.json")))
+        fl = "tsan" if m.get("env", {}).get("VERIF_TSAN") else "asan" if m.get("env", {}).get("VERIF_ASAN") else None
+        if fl and not os.path.isdir(os.path.join(ENV_EXTRA["VERIF_BUILD_ROOT"], fl)) and os.path.isdir(os.path.join(VERIF, ".build", fl)):
+            subprocess.run(["cp", "-a", os.path.join(VERIF, ".build", fl), ENV_EXTRA["VERIF_BUILD_ROOT"]], check=True)
 results = {}
 for n in names:
     d = os.path.join(VERIF, "seeded", n)
@@ -42,7 +48,7 @@ for n in names:
             t0 = time.time()
             tier = meta.get("tier", "quick")
             rr = subprocess.run([os.path.join(VERIF, "check"), prop, "--tier", tier], capture_output=True, text=True,
-                                env={**os.environ, "VERIF_SCRATCH": os.path.join(VERIF, "scratch", "seeded"), **ENV_EXTRA})
+                                env={**os.environ, "VERIF_SCRATCH": os.path.join(VERIF, "scratch", "seeded"), **ENV_EXTRA, **meta.get("env", {})})
             viol = [l for l in rr.stdout.splitlines() if l.startswith("VIOLATION")]
             print(f"  {n}: {prop} rc={rr.returncode} violations={len(viol)} ({time.time()-t0:.0f}s)")
             if rr.returncode == 1 and viol:
